@@ -110,3 +110,8 @@ var I40 = &Impl[gocvss40.CVSS40, *gocvss40.CVSS40]{
 	},
 	Describe: func(o gocvss40.CVSS40) string { return fmt.Sprintf("%v", o) },
 }
+
+type CVSS20T = gocvss20.CVSS20
+type CVSS30T = gocvss30.CVSS30
+type CVSS31T = gocvss31.CVSS31
+type CVSS40T = gocvss40.CVSS40
